@@ -373,6 +373,14 @@ def run(run: Run):
     borrow(run, 'C03.R5', c09.r1, src)
     borrow(run, 'C03.R6', c02.r2, src)
     borrow(run, 'C03.R6', c02.r4_r5, src)
+    # closure: a sub-expression that is parsed but never descended into / emitted takes the cells it references out of the slice
+    run.rule('C03.R7', 'every argument of every function production is descended into in every world (shared with C05.R6)')
+    from . import c05
+    borrow(run, 'C03.R7', c05.r6, src, g, em)
+    run.floor('C03.R7', 30)
+    run.rule('C03.R8', 'the tree a cell is translated from is parsed for that very cell, so its references are those of the cell (shared with C02.R8)')
+    borrow(run, 'C03.R8', c02.r8_fresh_parse, src)
+    run.floor('C03.R8', 1)
     run.floor('C03.R1', 10)
     run.floor('C03.R2', 6)
     run.floor('C03.R3', 100)
